@@ -141,3 +141,42 @@ func H_C01_chain() {
 	verif.Reach("chain compared")
 	verif.Assert(err == nil && eqTree(got, want), "C01/chain result/"+polName[pol])
 }
+
+// H_C01_refs: A's setting k is a reference to another setting r of A that holds a container.
+// Merging B = {k: Y} concerns k only: the union leaves r (only A has it) exactly as it was,
+// and k is B's value, or the merged contents when Y is a container too.
+func H_C01_refs() {
+	sp := c01Spec()
+	x := genNode("A.r", sp, true)
+	if x.Kind != kCfg {
+		return // the referenced setting is a container (object, list or both)
+	}
+	y := genNode("B.k", sp, true)
+	pol := verif.Choice("policy", nPolicies)
+	how := verif.Choice("source", 2)
+	opts := append([]ucfg.Option{ucfg.VarExp, ucfg.PathSep(".")}, polOpts(pol)...)
+	s := nUint(verif.Uint64("A.s"))
+	ca, err := ucfg.NewFrom(map[string]interface{}{"k": "${r}", "r": x.toGo(), "s": s.toGo()}, opts...)
+	verif.Assume(err == nil)
+	b := nDict().set("k", y)
+	var src interface{} = b.toGo()
+	if how == 1 {
+		c, err := ucfg.NewFrom(b.toGo(), opts...)
+		verif.Assume(err == nil)
+		src = c
+	}
+	err = ca.Merge(src, opts...)
+	verif.Assert(err == nil, "C01/refs: Merge accepted/"+polName[pol])
+	if err != nil {
+		return
+	}
+	got, err := unpackTree(ca, opts...)
+	verif.Assert(err == nil, "C01/refs: unpack after merge")
+	if err != nil {
+		return
+	}
+	// the model merges B into A with k standing for what it refers to (ReplaceValues replaces A's dictionary wholesale)
+	want := mergeVal(constPol(pol), nil, nDict().set("k", x).set("r", x).set("s", s), b)
+	verif.Reach("merged over a reference and compared")
+	verif.Assert(eqTree(got, want), "C01/refs: merging over a reference leaves the referenced setting alone/"+polName[pol])
+}
